@@ -150,7 +150,7 @@ func (conn *ConnectionSet) Subtract(other *ConnectionSet) {
 // added explicitly, without using the `AllowAll` field
 func (conn *ConnectionSet) addAllConns() {
 	for _, protocol := range allProtocols {
-		conn.AddConnection(protocol, MakePortSet(true))
+		conn.addConnection(protocol, MakePortSet(true))
 	}
 }
 
@@ -193,6 +193,12 @@ func (conn *ConnectionSet) ContainedIn(other *ConnectionSet) bool {
 
 // AddConnection updates current ConnectionSet object with new allowed connection
 func (conn *ConnectionSet) AddConnection(protocol v1.Protocol, ports *PortSet) {
+	conn.addConnection(protocol, ports)
+	conn.checkIfAllConnections()
+}
+
+// addConnection adds the ports to the protocol's entry without canonicalizing the result
+func (conn *ConnectionSet) addConnection(protocol v1.Protocol, ports *PortSet) {
 	if ports.IsEmpty() {
 		return
 	}
